@@ -276,7 +276,7 @@ func (r *c40Run) newShardGates(n int) {
 	r.mu.Unlock()
 }
 
-const c40Wait = 30 * time.Second
+const c40Wait = 10 * time.Second
 
 func (r *c40Run) replay(t *testing.T) {
 	b := r.b
